@@ -13,7 +13,8 @@ tree into a scratch directory and applies ONLY these edits, each a must-fire rul
                         <function>__<name>  (scope only; lifetime and initialiser unchanged).
   R4 variadic calls   : sprintf/sscanf with a literal format become fixed-arity model calls
                         vf_sprintf_<mangled format>(dst, args...) / vf_sscanf_<mangled>(src, args...).
-  R5 struct memcpy    : memcpy(d, s, sizeof(cJSON)) becomes vf_memcpy_cjson(d, s, sizeof(cJSON)) (exact 64-byte copy model).
+  R5 struct memcpy    : memcpy(d, s, sizeof(cJSON)) becomes vf_memcpy_cjson(d, s, sizeof(cJSON)) (exact 64-byte copy model);
+                        memset(p, 0, sizeof(cJSON)) becomes vf_memset_cjson (typed zero assignment, so that symex sees NULL links).
 Nothing is dropped.
 """
 import os, re, sys, shutil
@@ -258,6 +259,18 @@ def rewrite_struct_memcpy(src, fname, report):
             if len(args) == 3 and args[2].replace(" ", "") == "sizeof(cJSON)":
                 edits.append((s, e, "vf_memcpy_cjson"))
                 report.append("R5 %s: memcpy(%s) -> vf_memcpy_cjson" % (fname, ", ".join(args)))
+        if k == "id" and t == "memset" and toks[idx + 1][1] == "(":
+            d = 0; j = idx + 1
+            while True:
+                if toks[j][1] == "(": d += 1
+                elif toks[j][1] == ")":
+                    d -= 1
+                    if d == 0: break
+                j += 1
+            args = split_args(src[toks[idx + 1][3]:toks[j][2]])
+            if len(args) == 3 and args[2].replace(" ", "") == "sizeof(cJSON)" and args[1].strip() in ("'\\0'", "0"):
+                edits.append((s, e, "vf_memset_cjson"))
+                report.append("R5 %s: memset(%s) -> vf_memset_cjson" % (fname, ", ".join(args)))
     for s_, e_, new in sorted(edits, reverse=True):
         src = src[:s_] + new + src[e_:]
     return src
